@@ -30,6 +30,36 @@ class ReplayEnd(BaseException):
     """Replay reached the point where the recorded symbolic path stopped."""
 
 
+class PathTimeout(Exception):
+    """The code under analysis did not return within the per-path wall-clock limit (a hang)."""
+
+
+import signal
+import contextlib
+
+
+@contextlib.contextmanager
+def path_alarm(seconds):
+    """raise PathTimeout in the main thread if the body runs longer than `seconds`"""
+    if not seconds or not hasattr(signal, 'setitimer'):
+        yield
+        return
+
+    def handler(signum, frame):
+        raise PathTimeout(f'no result after {seconds} s (hang?)')
+    try:
+        old = signal.signal(signal.SIGALRM, handler)
+    except ValueError:          # not in the main thread
+        yield
+        return
+    signal.setitimer(signal.ITIMER_REAL, seconds)
+    try:
+        yield
+    finally:
+        signal.setitimer(signal.ITIMER_REAL, 0)
+        signal.signal(signal.SIGALRM, old)
+
+
 class Budget(BaseException):
     """Exploration budget exhausted."""
 
@@ -1161,7 +1191,8 @@ class Explorer:
                 self._reset_path(prefix)
                 prev, CUR = CUR, self
                 try:
-                    harness(self)
+                    with path_alarm(getattr(self, 'path_timeout_s', 60)):
+                        harness(self)
                     self.stats.paths += 1
                     if len(self.stats.samples) < 4:
                         r = self._check(need_model=True)
@@ -1276,7 +1307,8 @@ class Concrete:
 
     def run(self, harness):
         try:
-            harness(self)
+            with path_alarm(60):
+                harness(self)
         except ReplayEnd:
             pass
         except KeyError as e:
